@@ -76,12 +76,7 @@ Definition conf_win (sw : window_size) (ver : ip_version) (w : N) (mss : option 
               || match mss with Some m => (0 <? m) && (w =? k * (m + min_headers ver)) | None => false end
   end.
 
-(* README: df / id+ / id- / 0+ "ignored for IPv6", flow "ignored for IPv4" *)
-Definition quirk_applies (v : ip_version) (q : quirk) : bool :=
-  match v, q with
-  | IpV6, QDf | IpV6, QNonZeroID | IpV6, QZeroID | IpV6, QMustBeZero => false
-  | IpV4, QFlowID => false
-  | _, _ => true end.
+(* README: df / id+ / id- / 0+ "ignored for IPv6", flow "ignored for IPv4": Spec.InstanceSpec.quirk_applies *)
 Definition qmem (q : quirk) (l : list quirk) : bool := existsb (quirk_eqb q) l.
 Definition conf_quirks (sq : list quirk) (g : segment) : bool :=
   forallb (fun q => negb (quirk_applies (seg_ver g) q) || Bool.eqb (qmem q sq) (quirk_holds g (seg_items g) q))
